@@ -63,6 +63,10 @@ func (k Kind) Mergeable() bool {
 type Val struct {
 	B uint64 `json:"b,omitempty"`
 	S string `json:"s,omitempty"`
+	// Arith: the (model) value is the result of floating-point arithmetic in a merge - if it is a NaN,
+	// its payload is whatever the hardware propagates and only "is a NaN" is compared. A stored NaN
+	// must read back bit for bit (signalling NaNs included).
+	Arith bool `json:"-"`
 }
 
 func (v Val) show(k Kind) string {
@@ -182,6 +186,9 @@ func valEqual(k Kind, a, b Val) bool {
 	}
 	if a.B == b.B {
 		return true
+	}
+	if !a.Arith && !b.Arith {
+		return false
 	}
 	if k == KFloat64 {
 		return math.IsNaN(math.Float64frombits(a.B)) && math.IsNaN(math.Float64frombits(b.B))
